@@ -84,8 +84,25 @@ func (in *Interp) step(st *State, fr *Frame, ins ssa.Instruction) {
 		ln := in.term(st, fr, x.Len)
 		cp := in.term(st, fr, x.Cap)
 		in.require(st, And(Le(IntC(0), ln), Le(ln, cp)), "makeslice: len out of range")
-		n := in.concretize(st, ln, 0, 1<<20)
-		c := in.concretize(st, cp, n, 1<<20)
+		if _, isC := cp.ConstInt64(); !isC && in.Cfg.MaxAlloc > 0 && !st.Spec {
+			// bound: paths allocating more than MaxAlloc elements are outside the claim
+			lim := Le(cp, IntC(int64(in.Cfg.MaxAlloc)))
+			in.Res.BranchQ++
+			if in.Sol.CheckWith(lim) == Unsat {
+				panic(pathEnd{"cut"})
+			}
+			in.assumeNote(st, lim, fmt.Sprintf("allocations of at most %d elements (larger ones are outside the claim)", in.Cfg.MaxAlloc))
+		}
+		hiB := int64(1 << 20)
+		if in.Cfg.MaxAlloc > 0 {
+			hiB = int64(in.Cfg.MaxAlloc)
+		}
+		n := in.concretize(st, ln, 0, hiB)
+		c := in.concretize(st, cp, n, hiB)
+		if in.Cfg.MaxAlloc > 0 && c > int64(in.Cfg.MaxAlloc) {
+			in.stubSeen[fmt.Sprintf("assume: allocations of at most %d elements (larger ones are outside the claim)", in.Cfg.MaxAlloc)] = true
+			panic(pathEnd{"cut"})
+		}
 		if c > 4096 {
 			panic(unsupported(fmt.Sprintf("make slice with cap %d exceeds materialisation limit", c)))
 		}
@@ -1487,31 +1504,126 @@ func zeroLike(v Value) Value {
 
 func (in *Interp) copyOp(st *State, args []Value) Value {
 	d := args[0].(SliceV)
-	var n2 int64
-	var elems func(i int64) Value
+	var n2t *Term
+	var elemAt func(i int64) (Value, bool)
 	switch t := args[1].(type) {
 	case SliceV:
-		n2 = in.concretize(st, t.Len, 0, 1<<16)
-		elems = func(i int64) Value { return in.sliceElem(st, t, i) }
+		n2t = t.Len
+		elemAt = func(i int64) (Value, bool) {
+			if t.Obj < 0 {
+				return nil, false
+			}
+			arr, ok := in.getPath(st, st.Heap[t.Obj], t.Path).(*ArrayV)
+			if !ok {
+				return nil, false
+			}
+			idx := Add(t.Off, IntC(i))
+			if c, ok := idx.ConstInt64(); ok && (c < 0 || c >= int64(len(arr.E))) {
+				return nil, false
+			}
+			if idx.Lo != nil && idx.Lo.Cmp(new(big.Rat).SetInt64(int64(len(arr.E)))) >= 0 {
+				return nil, false
+			}
+			return in.getPath(st, arr, []PathEl{{Field: -1, Idx: idx}}), true
+		}
 	case StrV:
 		bs := strBytes(t)
-		n2 = int64(len(bs))
-		elems = func(i int64) Value { return bs[i] }
+		n2t = IntC(int64(len(bs)))
+		elemAt = func(i int64) (Value, bool) {
+			if i >= int64(len(bs)) {
+				return nil, false
+			}
+			return bs[i], true
+		}
+	default:
+		panic(unsupported(fmt.Sprintf("copy from %T", args[1])))
 	}
-	n1 := in.concretize(st, d.Len, 0, 1<<16)
-	n := n1
-	if n2 < n {
-		n = n2
+	n1c, ok1 := in.idxConst64(st, d.Len)
+	n2c, ok2 := in.idxConst64(st, n2t)
+	if ok1 && ok2 {
+		n := n1c
+		if n2c < n {
+			n = n2c
+		}
+		vals := make([]Value, n)
+		for i := int64(0); i < n; i++ {
+			v, ok := elemAt(i)
+			if !ok {
+				panic(pathEnd{"infeasible"})
+			}
+			vals[i] = v
+		}
+		for i := int64(0); i < n; i++ {
+			p := PtrV{Obj: d.Obj, Path: extPath(d.Path, PathEl{Field: -1, Idx: Add(d.Off, IntC(i))})}
+			in.store(st, p, vals[i])
+		}
+		return IntC(n)
 	}
-	vals := make([]Value, n)
-	for i := int64(0); i < n; i++ {
-		vals[i] = elems(i)
+	// symbolic length: element-wise guarded copy (no forking)
+	n := Ite(Le(d.Len, n2t), d.Len, n2t)
+	maxN := int64(-1)
+	for _, t := range []*Term{d.Len, n2t} {
+		if t.Hi != nil && t.Hi.IsInt() && t.Hi.Num().IsInt64() {
+			if h := t.Hi.Num().Int64(); maxN < 0 || h < maxN {
+				maxN = h
+			}
+		}
 	}
-	for i := int64(0); i < n; i++ {
-		p := PtrV{Obj: d.Obj, Path: extPath(d.Path, PathEl{Field: -1, Idx: Add(d.Off, IntC(i))})}
-		in.store(st, p, vals[i])
+	if d.Obj >= 0 {
+		if arr, ok := in.getPath(st, st.Heap[d.Obj], d.Path).(*ArrayV); ok && (maxN < 0 || int64(len(arr.E)) < maxN) {
+			maxN = int64(len(arr.E))
+		}
 	}
-	return IntC(n)
+	if maxN < 0 || maxN > 512 {
+		panic(unsupported("copy with unbounded symbolic length"))
+	}
+	if d.Obj < 0 {
+		return IntC(0)
+	}
+	type pending struct {
+		i int64
+		v Value
+	}
+	var ps []pending
+	for i := int64(0); i < maxN; i++ {
+		g := Lt(IntC(i), n)
+		if b, ok := g.ConstBool(); ok && !b {
+			break
+		}
+		sv, ok := elemAt(i)
+		if !ok {
+			break
+		}
+		ps = append(ps, pending{i, sv})
+	}
+	darr := in.getPath(st, st.Heap[d.Obj], d.Path).(*ArrayV)
+	for _, pe := range ps {
+		g := Lt(IntC(pe.i), n)
+		idx := Add(d.Off, IntC(pe.i))
+		if c, ok := idx.ConstInt64(); ok && (c < 0 || c >= int64(len(darr.E))) {
+			break
+		}
+		if idx.Lo != nil && idx.Lo.Cmp(new(big.Rat).SetInt64(int64(len(darr.E)))) >= 0 {
+			break
+		}
+		cur := in.getPath(st, st.Heap[d.Obj], extPath(d.Path, PathEl{Field: -1, Idx: idx}))
+		nv, ok := merge(g, pe.v, cur)
+		if !ok {
+			panic(unsupported("copy with symbolic length of non-scalar elements"))
+		}
+		in.store(st, PtrV{Obj: d.Obj, Path: extPath(d.Path, PathEl{Field: -1, Idx: idx})}, nv)
+	}
+	return n
+}
+
+func (in *Interp) idxConst64(st *State, t *Term) (int64, bool) {
+	if v, ok := t.ConstInt64(); ok {
+		return v, true
+	}
+	if v, ok := st.Concr[t.ID]; ok {
+		return v, true
+	}
+	return 0, false
 }
 
 // wrap reduces an exact Int term into the range of basic type b. When the syntactic interval cannot show
